@@ -117,13 +117,13 @@ def lsql(nm, c, l):
 def lguard(c, l, x, y):
     """SQL three-valued truth of the level's condition on the record pair: 1 true, 0 false, 2 NULL."""
     if l["kind"] == "eqand":
-        gs = [c02.guard({"kind": "eq"}, x[k], y[k]) for k in l["cols"]]
+        gs = [c02.guard_values({"kind": "eq"}, x[k], y[k]) for k in l["cols"]]
         return 0 if 0 in gs else 2 if 2 in gs else 1
     if l["kind"] == "null" and l.get("cols"):
         gs = [x[k] is None or y[k] is None for k in l["cols"]]
         return int(all(gs) if l.get("null_mode") == "all" else any(gs))
     k = lcol(c, l)
-    return c02.guard(l, x[k], y[k])
+    return c02.guard_values(l, x[k], y[k])
 
 
 def tf_col(c, l):
@@ -651,8 +651,13 @@ def failure_key(case, what):
         # symptoms of a parameter that is exactly 0.0: log2(0) in the E-step; an infinite Bayes factor of a rule's exact-match level
         # (prior inf/inf = nan, rendered as the identifier nan in the SQL; 1/0 when the prior is populated from trained values)
         log0 = any(t in what for t in ("logarithm of zero", "user-defined function raised exception", '"nan"', ": nan", "ZeroDivisionError", "division by zero"))
-        w = underflow_witness(case) if log0 else None
-        return {"failure": cls, "parameter_underflow_to_zero": bool(log0 and w is not None and w < 1e-100),
+        # Over the reals every posterior lies strictly inside (0, 1) and every trained m, u and the prior stay strictly positive when
+        # the model the caller supplied has 0 < m, u and 0 < prior < 1; so a logarithm of zero (or 0/0, x/0) met during training can then
+        # only come from floating point: a parameter, a product of Bayes factors or a posterior that under- or overflowed (K9's family).
+        # A model that the caller gave an exact 0 is another matter and is not matched.
+        supplied_positive = 0.0 < float(case.get("prior", 0.5)) < 1.0 and all(
+            l.get("m", 0.5) > 0.0 and l.get("u", 0.5) > 0.0 for c in case["comparisons"] for l in c["levels"] if l["kind"] != "null")
+        return {"failure": cls, "parameter_underflow_to_zero": bool(log0 and supplied_positive),
                 **({"salted_training_rule_without_salt_column": True} if "__splink_salt" in what else {})}
     return {"failure": cls}
 
